@@ -222,7 +222,7 @@ func runC11(c *mon.Ctx) {
 		if r.IntN(5) == 0 {
 			signer = w.IdP[0]
 		}
-		g := GenGenuine(r, w, GenOpts{MaxAssertions: 2, ForcePlace: "assert"})
+		g := GenGenuine(r, w, GenOpts{MaxAssertions: 3, ForcePlace: "assert"})
 		g.Signer = signer
 		// pad the first assertion so that its serialisation walks through every residue mod 16
 		pad := strings.Repeat("p", (k/(len(kcs)))%16)
@@ -249,8 +249,12 @@ func runC11(c *mon.Ctx) {
 			cs.Inconclusive("simulator-error")
 			continue
 		}
-		for _, a := range g.Rec.Assertions {
-			a.Enc = &sim.EncSpec{DataAlg: co.data, KeyAlg: co.key, Digest: co.digest, To: to, Detached: r.IntN(2) == 0, Prefixed: r.IntN(2) == 0, Filler: r.IntN(3)}
+		for ai, a := range g.Rec.Assertions {
+			ci := co
+			if ai > 0 {
+				ci = combos[r.IntN(len(combos))] // a later assertion encrypted differently (other digest / transport / algorithm)
+			}
+			a.Enc = &sim.EncSpec{DataAlg: ci.data, KeyAlg: ci.key, Digest: ci.digest, To: to, Detached: r.IntN(2) == 0, Prefixed: r.IntN(2) == 0, Filler: r.IntN(3)}
 			if r.IntN(2) == 0 {
 				a.Enc.Recipient = to
 			}
